@@ -133,3 +133,44 @@ impl From<ColorArg> for ColorChoice {
     }
   }
 }
+
+#[cfg(feature = "verif-hooks")]
+pub mod verif_hooks {
+  use super::NodeMatch;
+  use crate::lang::SgLang;
+  use ast_grep_core::meta_var::MetaVarEnv;
+  use ast_grep_core::{AstGrep, Language, Pattern, StrDoc};
+  use ast_grep_language::SupportLang;
+
+  pub use super::colored_print::verif_hooks::*;
+  pub use super::json_print::verif_hooks::*;
+
+  pub type Grep = AstGrep<StrDoc<SgLang>>;
+
+  pub fn parse(src: &str, lang: SupportLang) -> Grep {
+    SgLang::from(lang).ast_grep(src)
+  }
+
+  /// the matches handed to a print processor: all matches of `pattern` (pre-order), or, without
+  /// a pattern, the first node (pre-order) spanning each of the byte `ranges`, in the given order
+  pub fn select<'a>(
+    grep: &'a Grep,
+    pattern: Option<&str>,
+    ranges: &[(usize, usize)],
+  ) -> Vec<NodeMatch<'a>> {
+    if let Some(p) = pattern {
+      let pat = Pattern::new(p, *grep.lang());
+      return grep.root().find_all(pat).collect();
+    }
+    let nodes: Vec<_> = grep.root().dfs().collect();
+    ranges
+      .iter()
+      .filter_map(|(s, e)| {
+        nodes
+          .iter()
+          .find(|n| n.range() == (*s..*e))
+          .map(|n| NodeMatch::new(n.clone(), MetaVarEnv::new()))
+      })
+      .collect()
+  }
+}
